@@ -125,7 +125,7 @@ PROPS["C19"] = {
     "level_note": "as C08",
 }
 PROPS["C02"] = {
-    "groups": [{"run": "^vpH_C02_T_|^vpH_C07_T_(leftover|stale_read_changed)$|^vpH_C09_T_stop_(leader|slow_create|window)$"}],
+    "groups": [{"run": "^vpH_C02_T_|^vpH_C07_T_(leftover|stale_read_changed)$|^vpH_C09_T_stop_(leader|slow_create|window)$|^vpH_C08_T_restart_leftover$"}],
     "bounds": {"quick": "TTL margin: H symbolic in [100ms,10s], TTL symbolic in [3H,3H+2s], every store latency symbolic below H/2, three heartbeats, at most 5 store operations: the record replaced by each refresh was still live. Churn: one real instance (H=1s, TTL=3s) next to a protocol-conforming environment ('the others': creates the record when vacant, refreshes / deletes only its own), Stop / StopWithContext{DeleteKey} / {DeleteKey,WaitForDemote} and optional restart placed by the explorer at every store-visible point within 2H, one environment action at every store-visible point within 3H; plus the C07 vacancy scenario and the C09 stop-of-a-leader and slow-Create scenarios; the claim (IsLeader => live record names the instance and carries its token) is checked inside the Metrics.SetIsLeader callback at every flag change and at the end"},
     "outside": "latencies of H/2 and above; preemption (excluded by the statement); more than one environment action per run; 'at most one leader' is the corollary of per-instance claim-backing (a record names one instance) stated in DESIGN section 3, not a two-real-instance exploration",
     "assumptions": ["other instances are represented by the environment thread obeying the protocol (assume-guarantee, DESIGN section 3)"],
